@@ -71,6 +71,7 @@ class Ctx:
         self.trace = []  # abstract call log (ghost)
         self.unsupported = None
         self.interp = None
+        self.tainted = False
 
     def fresh(self, name, sort):
         n = self.counter.get(name, 0)
@@ -120,6 +121,10 @@ class Ctx:
         goal = z3.simplify(goal)
         loc = _loc(node)
         self.obligs.append(Oblig(name, list(self.facts), goal, loc, kind))
+        if z3.is_false(goal):
+            # a literally-false goal holds only on an infeasible path: do not poison the rest of the path with it
+            self.tainted = True
+            return
         self.assume(goal)
 
     def feasible(self, cond):
